@@ -16,14 +16,19 @@ import (
 
 func init() {
 	verifRegister("verifC10Loop", verifC10Loop)
+	verifRegister("verifC10LoopTwoSubmitters", verifC10LoopTwoSubmitters)
 	verifRegister("verifC10CloseTwice", verifC10CloseTwice)
 }
 
-func verifC10Loop() {
+func verifC10Loop() { verifC10LoopN(1) }
+
+// two submitters (thorough tier, smaller preemption bound)
+func verifC10LoopTwoSubmitters() { verifC10LoopN(2) }
+
+func verifC10LoopN(nSub int) {
 	var closeCb, running, overlap, startedAfterClose atomic.Int32
 	var closeReturned atomic.Bool
 	l := taskloop.New(func() { closeCb.Add(1) })
-	nSub := 1 + verifTier()
 	var ran [2]atomic.Int32
 	var ranAtReturn [2]int32
 	var res [2]error
